@@ -126,7 +126,7 @@ func (r *runner) observe(ctx context.Context, st readStore, kind string) map[str
 	tags := [][]any{}
 	for _, ref := range refs {
 		if d, err := st.Resolve(ctx, ref); err == nil {
-			tags = append(tags, []any{ref, r.nodeOf(d), annSig(d.Annotations)})
+			tags = append(tags, []any{ref, r.nodeOf(d), annSig(d.Annotations), d.Annotations[ocispec.AnnotationRefName]})
 		}
 	}
 	pred := make([][]int, g.N)
@@ -569,7 +569,7 @@ func genScenario(rng *rand.Rand, kind string) Scenario {
 	n := 3 + rng.Intn(3)
 	succ := vh.RandomSucc(n, rng, 30+rng.Intn(30))
 	nodes := vh.ShapeFromSucc(succ, rng, vh.ShapeOpts{Subjects: true, Artifact: true, Docker: kind != "oci" || rng.Intn(3) == 0, Dup: true,
-		Alias: kind == "memory"})
+		Alias: kind == "memory", Foreign: kind == "oci" && rng.Intn(3) == 0}) // (non-distributable layers are stored like any blob)
 	chain := kind == "oci" && rng.Intn(4) == 0
 	if chain {
 		nodes = referrerChain()
